@@ -5,7 +5,7 @@ let contents (l : z list) = join [ "["; zlist_s l; "]" ]
 
 let cmp_of = function
   | "less" | "tless" -> cmp_less
-  | "greater" -> cmp_greater
+  | "greater" | "tgreater" -> cmp_greater
   | "half" -> cmp_half
   | _ -> raise Not_found
 
@@ -93,7 +93,10 @@ let model_leg fam cmpname cap steps =
   let qs = qs_of cap and bands = bands_of cap in
   let kind = kind_of fam in
   let lt = cmp_of cmpname in
-  let transparent = cmpname = "tless" in
+  let transparent = cmpname = "tless" || cmpname = "tgreater" in
+  (* the heterogeneous point / band keys as the transparent comparator sees them *)
+  let point_cut = if cmpname = "tgreater" then point_cut_g else point_cut in
+  let band_cut = if cmpname = "tgreater" then band_cut_g else band_cut in
   try
     if List.exists (fun (_, o) -> not (supported kind o)) steps then raise (Bad "nomember");
     let (s, trace) = unres (run lt kind (nat_of_int cap) init (List.map snd steps)) in
@@ -121,7 +124,10 @@ let spec_leg fam cmpname cap steps =
   let qs = qs_of cap and bands = bands_of cap in
   let kind = kind_of fam in
   let lt = cmp_of cmpname in
-  let transparent = cmpname = "tless" in
+  let transparent = cmpname = "tless" || cmpname = "tgreater" in
+  (* the heterogeneous point / band keys as the transparent comparator sees them *)
+  let point_cut = if cmpname = "tgreater" then point_cut_g else point_cut in
+  let band_cut = if cmpname = "tgreater" then band_cut_g else band_cut in
   match s_run lt kind (nat_of_int cap) init (List.map snd steps) with
   | None -> "na"
   | Some (s, trace) ->
@@ -171,8 +177,12 @@ let dyn_legs cap steps =
   let finish (cur : z cset) (oth : z cset) steps_s ask1 rel =
     let lt = cur.cmp in
     let desc = lt (z_of_int 1) (z_of_int 0) in
-    let q_s = List.map (fun q -> join [ "q"; ask1 (key_cut lt (z_of_int q)) ]) qs in
-    tokjoin (steps_s @ [ header cap cur.elems; join [ "D"; b2s desc ] ] @ q_s
+    let q_s = List.map (fun q -> join [ "q"; ask1 false (key_cut lt (z_of_int q)) ]) qs in
+    (* dyn_less is transparent: the heterogeneous point / band keys as the order the set holds NOW sees them *)
+    let pc = if desc then point_cut_g else point_cut and bc = if desc then band_cut_g else band_cut in
+    let t_s = List.map (fun q -> join [ "t"; ask1 true (pc (z_of_int q)) ]) qs
+              @ List.map (fun q -> join [ "b"; ask1 true (bc (z_of_int q) (z_of_int (q + 1))) ]) (bands_of cap) in
+    tokjoin (steps_s @ [ header cap cur.elems; join [ "D"; b2s desc ] ] @ q_s @ t_s
              @ [ join ("R" :: List.map b2s rel); "T"; contents oth.elems ]) in
   let m =
     try
@@ -183,7 +193,7 @@ let dyn_legs cap steps =
         | _, _ -> [] in
       let l = s.cur2.elems in
       finish s.cur2 s.oth2 (zip steps trace)
-        (fun c -> answers_s (unres (ask FlatSet false c l)))
+        (fun tr c -> answers_s (unres (ask FlatSet tr c l)))
         (unres (relations key_ltb (set_eq key_eqb FlatSet) l s.oth2.elems))
     with Bad m -> m in
   let p =
@@ -195,7 +205,7 @@ let dyn_legs cap steps =
           | (c, _) :: cs, (o, l) :: ts -> tokjoin [ c; sout_s FlatSet o; contents l ] :: zip cs ts
           | _, _ -> [] in
         let l = s.cur2.elems in
-        finish s.cur2 s.oth2 (zip steps trace) (fun c -> answers_s (s_ask c l))
+        finish s.cur2 s.oth2 (zip steps trace) (fun _ c -> answers_s (s_ask c l))
           (s_relations key_eqb key_ltb l s.oth2.elems) in
   (m, p)
 
